@@ -1,12 +1,19 @@
-(* Proofs about TmapModel (model of /repo/src/tmap.c).  Overview:
+(* Proofs about TmapModel (model of /repo/src/tmap.c).  The property theorems were first proved
+   for the code before the two repairs (names ending in _old: bisection from high = length, may read x[length];
+   0/0 on a zero-width segment) and are transferred to the CURRENT code at the end of the file:
      rounding        rdiv = round-half-away of a quotient; Qround_haz_half, Qtrunc_lt1
-     search          search_loop_ok (no fault when x[length] is inside the heap object),
-                     search_junk_independent_lemma (no sortedness needed), search_loop_spec /
-                     search_seg_ok / seg_ok_unique (what the bisection selects on a sorted array),
-                     search_oob_iff_lemma (exact condition of the x[length] over-read)
-     interp          interp_monotone, interp_anchor, interp_linear_lemma, interp_at_half, interp_inverse
-     tmap level      tmap_* theorems used by Properties_C12_tmap.v, tmap_reachable (invariant of
-                     jls_tmap_alloc + jls_tmap_add), tmap_oob_refuted, tmap_equal_times_refuted
+     search_old      search_loop_ok, search_junk_independent_lemma (no sortedness needed),
+                     search_loop_spec / search_seg_ok / seg_ok_unique (what the bisection selects on a
+                     sorted array), search_oob_iff_lemma (exact condition of the old over-read)
+     search          search_fixed_seg_ok, search_fixed_eq (same segment as the old code),
+                     search_total (never reads at or beyond length; no hypothesis)
+     interp_old      interp_monotone, interp_anchor, interp_linear_lemma, interp_at_half, interp_inverse
+     old tmap level  tmap_old_* ; tmap_reachable (invariant of jls_tmap_alloc + jls_tmap_add);
+                     tmap_old_oob_refuted, tmap_old_equal_times_refuted (the fixed defects)
+     transfer        tmap_cur_s2t / tmap_cur_t2s: current code = old code on a heap object with
+                     spare cells (where the old code was defined)
+     current code    tmap_total, tmap_anchor_exact, tmap_monotone(_rev), tmap_interp_linear,
+                     tmap_within_one_tick, tmap_extrap_nearest_segment, tmap_inverse_within_one_sample
      binary64 gap    c_binary64_within_one_partial: PARTIAL - what is proved is the error of the
                      expression under the standard model of rounding (hypothesis fl_err); that gcc's
                      binary64 arithmetic satisfies fl_err (it does for round-to-nearest without
@@ -200,9 +207,9 @@ Lemma clamp_top : forall len a, (len - 1 <= a)%nat -> clamp len a = (len - 2)%na
 Proof. intros len a H. unfold clamp. replace (len - 1 <=? a)%nat with true by lia. reflexivity. Qed.
 
 Theorem search_junk_independent_lemma : forall j j' ph xs x0,
-  (length xs < ph)%nat -> search j ph xs x0 = search j' ph xs x0.
+  (length xs < ph)%nat -> search_old j ph xs x0 = search_old j' ph xs x0.
 Proof.
-  intros j j' ph xs x0 Hph. unfold search.
+  intros j j' ph xs x0 Hph. unfold search_old.
   destruct (search_loop_junk (S (length xs)) j j' ph xs x0 0%nat (length xs) ltac:(lia) Hph ltac:(lia))
     as [->|[a [b [-> [-> [Ha Hb]]]]]]; [reflexivity|].
   rewrite (clamp_top _ _ Ha), (clamp_top _ _ Hb). reflexivity.
@@ -210,9 +217,9 @@ Qed.
 
 Theorem search_no_oob_lemma : forall j ph xs x0,
   (length xs < ph)%nat ->
-  exists c, search j ph xs x0 = Ok c /\ (c <= length xs)%nat /\ (2 <= length xs -> c + 2 <= length xs)%nat.
+  exists c, search_old j ph xs x0 = Ok c /\ (c <= length xs)%nat /\ (2 <= length xs -> c + 2 <= length xs)%nat.
 Proof.
-  intros j ph xs x0 Hph. unfold search.
+  intros j ph xs x0 Hph. unfold search_old.
   destruct (search_loop_ok (S (length xs)) j ph xs x0 0%nat (length xs) ltac:(lia) Hph ltac:(lia)) as [r [-> Hb]].
   eexists; split; [reflexivity|]. unfold clamp.
   destruct (length xs - 1 <=? r)%nat eqn:E; lia.
@@ -282,9 +289,9 @@ Qed.
 
 Lemma search_seg_ok : forall j ph xs x0,
   sorted_lt xs -> (2 <= length xs)%nat -> (length xs < ph)%nat ->
-  exists c, search j ph xs x0 = Ok c /\ seg_ok xs x0 c.
+  exists c, search_old j ph xs x0 = Ok c /\ seg_ok xs x0 c.
 Proof.
-  intros j ph xs x0 Hs Hlen Hph. unfold search.
+  intros j ph xs x0 Hs Hlen Hph. unfold search_old.
   destruct (search_loop_spec (S (length xs)) j ph xs x0 0%nat (length xs) Hs ltac:(lia) (or_intror Hph) ltac:(lia))
     as [r [-> [Hb [H1 H2]]]].
   { intros i Hi. lia. }
@@ -310,7 +317,7 @@ Qed.
 
 Lemma search_eq_seg : forall j ph xs x0 c,
   sorted_lt xs -> (2 <= length xs)%nat -> (length xs < ph)%nat -> seg_ok xs x0 c ->
-  search j ph xs x0 = Ok c.
+  search_old j ph xs x0 = Ok c.
 Proof.
   intros j ph xs x0 c Hs Hlen Hph Hc.
   destruct (search_seg_ok j ph xs x0 Hs Hlen Hph) as [c' [-> Hc']].
@@ -321,9 +328,9 @@ Qed.
    whatever the physical size and the junk *)
 Lemma search_fixed_seg_ok : forall xs x0,
   sorted_lt xs -> (2 <= length xs)%nat ->
-  exists c, search_fixed xs x0 = Ok c /\ seg_ok xs x0 c.
+  exists c, search xs x0 = Ok c /\ seg_ok xs x0 c.
 Proof.
-  intros xs x0 Hs Hlen. unfold search_fixed.
+  intros xs x0 Hs Hlen. unfold search.
   destruct (search_loop_spec (length xs) 0 0%nat xs x0 0%nat (length xs - 1)%nat Hs ltac:(lia) ltac:(left; lia) ltac:(lia))
     as [r [-> [Hb [H1 H2]]]].
   { intros i Hi. lia. }
@@ -340,7 +347,7 @@ Qed.
 
 Lemma search_fixed_eq : forall j ph xs x0,
   sorted_lt xs -> (2 <= length xs)%nat -> (length xs < ph)%nat ->
-  search_fixed xs x0 = search j ph xs x0.
+  search xs x0 = search_old j ph xs x0.
 Proof.
   intros j ph xs x0 Hs Hlen Hph.
   destruct (search_fixed_seg_ok xs x0 Hs Hlen) as [c [-> Hc]].
@@ -415,9 +422,9 @@ Qed.
 
 Theorem search_oob_iff_lemma : forall j ph xs x0,
   sorted_lt xs -> (2 <= length xs)%nat -> (ph <= length xs)%nat ->
-  (search j ph xs x0 = Fault OOB_read <-> nth (length xs - 1) xs 0 < x0).
+  (search_old j ph xs x0 = Fault OOB_read <-> nth (length xs - 1) xs 0 < x0).
 Proof.
-  intros j ph xs x0 Hs Hl Hph. unfold search. split.
+  intros j ph xs x0 Hs Hl Hph. unfold search_old. split.
   - intros H. destruct (Z_lt_ge_dec (nth (length xs - 1) xs 0) x0) as [Hq|Hq]; [assumption|exfalso].
     destruct (search_loop_inb (S (length xs)) j ph xs x0 0%nat (length xs) Hs ltac:(lia) ltac:(lia) ltac:(lia) ltac:(lia)) as [r Hr].
     rewrite Hr in H. discriminate.
@@ -434,16 +441,16 @@ Proof.
   intros B l i H Hi. unfold all_in in H. rewrite Forall_forall in H. apply H. apply nth_In. exact Hi.
 Qed.
 
-(* the value interp_at returns, with round() expressed by rdiv *)
+(* the value interp_at_old returns, with round() expressed by rdiv *)
 Definition ival (xs ys : list Z) (c : nat) (x0 : Z) : Z :=
   nth c ys 0 + rdiv ((x0 - nth c xs 0) * (nth (S c) ys 0 - nth c ys 0)) (nth (S c) xs 0 - nth c xs 0).
 
 Lemma interp_at_inv : forall xs ys c x0 v,
-  interp_at xs ys c x0 = Ok v ->
+  interp_at_old xs ys c x0 = Ok v ->
   nth (S c) xs 0 - nth c xs 0 <> 0 /\
   v = nth c ys 0 + interp_k (x0 - nth c xs 0) (nth (S c) xs 0 - nth c xs 0) (nth (S c) ys 0 - nth c ys 0).
 Proof.
-  intros xs ys c x0 v. unfold interp_at.
+  intros xs ys c x0 v. unfold interp_at_old.
   destruct (negb _); [discriminate|].
   destruct (_ =? 0) eqn:E; [discriminate|].
   destruct (negb _); [discriminate|].
@@ -451,7 +458,7 @@ Proof.
 Qed.
 
 Lemma interp_at_inv_pos : forall xs ys c x0 v,
-  interp_at xs ys c x0 = Ok v -> 0 < nth (S c) xs 0 - nth c xs 0 -> v = ival xs ys c x0.
+  interp_at_old xs ys c x0 = Ok v -> 0 < nth (S c) xs 0 - nth c xs 0 -> v = ival xs ys c x0.
 Proof.
   intros xs ys c x0 v H Hds. apply interp_at_inv in H. destruct H as [_ ->].
   unfold ival. rewrite interp_k_eq by assumption. reflexivity.
@@ -462,9 +469,9 @@ Lemma interp_at_ok : forall xs ys c x0,
   in64 (x0 - nth c xs 0) = true -> in64 (nth (S c) xs 0 - nth c xs 0) = true ->
   in64 (nth (S c) ys 0 - nth c ys 0) = true ->
   in64 (ival xs ys c x0 - nth c ys 0) = true -> in64 (ival xs ys c x0) = true ->
-  interp_at xs ys c x0 = Ok (ival xs ys c x0).
+  interp_at_old xs ys c x0 = Ok (ival xs ys c x0).
 Proof.
-  intros xs ys c x0 Hds H1 H2 H3 H4 H5. unfold interp_at.
+  intros xs ys c x0 Hds H1 H2 H3 H4 H5. unfold interp_at_old.
   rewrite H1, H2, H3. cbn [andb negb].
   replace (nth (S c) xs 0 - nth c xs 0 =? 0) with false by lia.
   rewrite interp_k_eq by assumption.
@@ -476,7 +483,7 @@ Qed.
 
 (* within half a unit of the exact rational value, whatever the segment *)
 Lemma interp_at_half : forall xs ys c x0 v,
-  interp_at xs ys c x0 = Ok v ->
+  interp_at_old xs ys c x0 = Ok v ->
   (Qabs (inject_Z v - exact_at xs ys c x0) <= 1 # 2)%Q.
 Proof.
   intros xs ys c x0 v H. apply interp_at_inv in H. destruct H as [_ ->].
@@ -490,15 +497,15 @@ Qed.
 
 Lemma interp_seg : forall j ph xs ys x0 c,
   sorted_lt xs -> (2 <= length xs)%nat -> (length xs < ph)%nat ->
-  seg_ok xs x0 c -> interp j ph xs ys x0 = interp_at xs ys c x0.
-Proof. intros j ph xs ys x0 c Hsx Hlen2 Hph Hc. unfold interp. rewrite (search_eq_seg j ph xs x0 c Hsx Hlen2 Hph Hc). reflexivity. Qed.
+  seg_ok xs x0 c -> interp_old j ph xs ys x0 = interp_at_old xs ys c x0.
+Proof. intros j ph xs ys x0 c Hsx Hlen2 Hph Hc. unfold interp_old. rewrite (search_eq_seg j ph xs x0 c Hsx Hlen2 Hph Hc). reflexivity. Qed.
 
 Lemma interp_has_seg : forall j ph xs ys x0,
   sorted_lt xs -> (2 <= length xs)%nat -> (length xs < ph)%nat ->
-  exists c, seg_ok xs x0 c /\ interp j ph xs ys x0 = interp_at xs ys c x0.
+  exists c, seg_ok xs x0 c /\ interp_old j ph xs ys x0 = interp_at_old xs ys c x0.
 Proof.
   intros j ph xs ys x0 Hsx Hlen2 Hph. destruct (search_seg_ok j ph xs x0 Hsx Hlen2 Hph) as [c [Hc Hs]].
-  exists c. split; [assumption|]. unfold interp. rewrite Hc. reflexivity.
+  exists c. split; [assumption|]. unfold interp_old. rewrite Hc. reflexivity.
 Qed.
 
 Lemma seg_ds_pos : forall xs x0 c, sorted_lt xs -> seg_ok xs x0 c -> 0 < nth (S c) xs 0 - nth c xs 0.
@@ -586,7 +593,7 @@ Definition gen_ok (ph : nat) (xs ys : list Z) : Prop :=
   sorted_lt xs /\ sorted_le ys /\ length ys = length xs /\ (2 <= length xs)%nat /\ (length xs < ph)%nat.
 
 Theorem interp_monotone : forall j ph xs ys q1 q2 v1 v2, gen_ok ph xs ys ->
-  interp j ph xs ys q1 = Ok v1 -> interp j ph xs ys q2 = Ok v2 -> q1 <= q2 -> v1 <= v2.
+  interp_old j ph xs ys q1 = Ok v1 -> interp_old j ph xs ys q2 = Ok v2 -> q1 <= q2 -> v1 <= v2.
 Proof.
   intros j ph xs ys q1 q2 v1 v2 [Hsx [Hsy [Hly [Hlen2 Hph]]]] H1 H2 Hq.
   destruct (interp_has_seg j ph xs ys q1 Hsx Hlen2 Hph) as [c1 [Hc1 E1]].
@@ -615,7 +622,7 @@ Lemma interp_at_inside_ok : forall xs ys q c,
   sorted_lt xs -> sorted_le ys -> length ys = length xs ->
   all_in (2 ^ 62 - 1) xs -> all_in (2 ^ 62 - 1) ys ->
   seg_ok xs q c -> nth c xs 0 <= q <= nth (S c) xs 0 ->
-  interp_at xs ys c q = Ok (ival xs ys c q).
+  interp_at_old xs ys c q = Ok (ival xs ys c q).
 Proof.
   intros xs ys q c Hsx Hsy Hly Hbx Hby Hc Hq. pose proof Hc as [C1 _].
   pose proof (seg_ds_pos xs q c Hsx Hc). pose proof (seg_dt_nonneg xs ys q c Hsy Hly Hc).
@@ -628,7 +635,7 @@ Qed.
 
 Theorem interp_anchor : forall j ph xs ys i, gen_ok ph xs ys ->
   all_in (2 ^ 62 - 1) xs -> all_in (2 ^ 62 - 1) ys ->
-  (i < length xs)%nat -> interp j ph xs ys (nth i xs 0) = Ok (nth i ys 0).
+  (i < length xs)%nat -> interp_old j ph xs ys (nth i xs 0) = Ok (nth i ys 0).
 Proof.
   intros j ph xs ys i [Hsx [Hsy [Hly [Hlen2 Hph]]]] Hbx Hby Hi.
   destruct (Nat.lt_ge_cases (i + 1) (length xs)) as [Hin|Hlast].
@@ -650,7 +657,7 @@ Qed.
 Theorem interp_linear_lemma : forall j ph xs ys i q, gen_ok ph xs ys ->
   all_in (2 ^ 62 - 1) xs -> all_in (2 ^ 62 - 1) ys ->
   (i + 1 < length xs)%nat -> nth i xs 0 <= q <= nth (S i) xs 0 ->
-  interp j ph xs ys q = Ok (ival xs ys i q).
+  interp_old j ph xs ys q = Ok (ival xs ys i q).
 Proof.
   intros j ph xs ys i q Hg Hbx Hby Hi Hq. pose proof Hg as [Hsx [Hsy [Hly [Hlen2 Hph]]]].
   destruct (Z.eq_dec q (nth (S i) xs 0)) as [->|Hne].
@@ -691,7 +698,7 @@ Qed.
 Theorem interp_inverse : forall j j' ph xs ys q t q',
   sorted_lt xs -> (2 <= length xs)%nat -> (length xs < ph)%nat -> length ys = length xs ->
   slope_ge1 xs ys ->
-  interp j ph xs ys q = Ok t -> interp j' ph ys xs t = Ok q' -> -1 <= q' - q <= 1.
+  interp_old j ph xs ys q = Ok t -> interp_old j' ph ys xs t = Ok q' -> -1 <= q' - q <= 1.
 Proof.
   intros j j' ph xs ys q t q' Hsx Hlen2 Hph Hly Hslope H1 H2.
   pose proof (slope_sorted xs ys Hsx Hly Hslope) as Hsy. pose proof (sorted_lt_le _ Hsy) as Hsy'.
@@ -789,29 +796,29 @@ Proof. intros. apply map_length. Qed.
 Lemma times_length : forall t, length (times t) = length (entries t).
 Proof. intros. apply map_length. Qed.
 
-Lemma s2t_multi : forall j t q, (2 <= length (entries t))%nat ->
-  tmap_sample_id_to_timestamp j t q = qres_of (interp j (phys t) (ids t) (times t) q).
+Lemma s2t_multi_old : forall j t q, (2 <= length (entries t))%nat ->
+  tmap_sample_id_to_timestamp_old j t q = qres_of (interp_old j (phys t) (ids t) (times t) q).
 Proof.
-  intros j t q H. unfold tmap_sample_id_to_timestamp.
+  intros j t q H. unfold tmap_sample_id_to_timestamp_old.
   destruct (entries t) as [|[s0 u0] [|e2 l]] eqn:E; cbn [length] in H; try lia. reflexivity.
 Qed.
 
-Lemma t2s_multi : forall j t q, (2 <= length (entries t))%nat ->
-  tmap_timestamp_to_sample_id j t q = qres_of (interp j (phys t) (times t) (ids t) q).
+Lemma t2s_multi_old : forall j t q, (2 <= length (entries t))%nat ->
+  tmap_timestamp_to_sample_id_old j t q = qres_of (interp_old j (phys t) (times t) (ids t) q).
 Proof.
-  intros j t q H. unfold tmap_timestamp_to_sample_id.
+  intros j t q H. unfold tmap_timestamp_to_sample_id_old.
   destruct (entries t) as [|[s0 u0] [|e2 l]] eqn:E; cbn [length] in H; try lia. reflexivity.
 Qed.
 
-Lemma s2t_single : forall j t q s0 u0, entries t = [(s0, u0)] ->
-  tmap_sample_id_to_timestamp j t q =
+Lemma s2t_single_old : forall j t q s0 u0, entries t = [(s0, u0)] ->
+  tmap_sample_id_to_timestamp_old j t q =
   if rate_positive (rate t) then qres_of (single_id_to_time (rate t) s0 u0 q) else QErr TMAP_ERROR_UNAVAILABLE.
-Proof. intros j t q s0 u0 E. unfold tmap_sample_id_to_timestamp. rewrite E. reflexivity. Qed.
+Proof. intros j t q s0 u0 E. unfold tmap_sample_id_to_timestamp_old. rewrite E. reflexivity. Qed.
 
-Lemma t2s_single : forall j t q s0 u0, entries t = [(s0, u0)] ->
-  tmap_timestamp_to_sample_id j t q =
+Lemma t2s_single_old : forall j t q s0 u0, entries t = [(s0, u0)] ->
+  tmap_timestamp_to_sample_id_old j t q =
   if rate_positive (rate t) then qres_of (single_time_to_id (rate t) s0 u0 q) else QErr TMAP_ERROR_UNAVAILABLE.
-Proof. intros j t q s0 u0 E. unfold tmap_timestamp_to_sample_id. rewrite E. reflexivity. Qed.
+Proof. intros j t q s0 u0 E. unfold tmap_timestamp_to_sample_id_old. rewrite E. reflexivity. Qed.
 
 Lemma qres_of_val : forall r v, qres_of r = QVal v -> r = Ok v.
 Proof. intros [a|f] v H; cbn in H; inversion H; reflexivity. Qed.
@@ -839,109 +846,122 @@ Proof.
 Qed.
 
 (* ================= junk independence, no over-read ================= *)
-Theorem tmap_junk_independent : forall j j' t q, (length (entries t) < phys t)%nat ->
-  tmap_sample_id_to_timestamp j t q = tmap_sample_id_to_timestamp j' t q /\
-  tmap_timestamp_to_sample_id j t q = tmap_timestamp_to_sample_id j' t q.
+Theorem tmap_old_junk_independent : forall j j' t q, (length (entries t) < phys t)%nat ->
+  tmap_sample_id_to_timestamp_old j t q = tmap_sample_id_to_timestamp_old j' t q /\
+  tmap_timestamp_to_sample_id_old j t q = tmap_timestamp_to_sample_id_old j' t q.
 Proof.
   intros j j' t q Hph.
   destruct (entries_cases t) as [E|[[s0 [u0 E]]|E]].
-  - unfold tmap_sample_id_to_timestamp, tmap_timestamp_to_sample_id. rewrite E. split; reflexivity.
-  - rewrite !(s2t_single _ t q s0 u0 E), !(t2s_single _ t q s0 u0 E). split; reflexivity.
-  - rewrite !s2t_multi, !t2s_multi by assumption. unfold interp.
+  - unfold tmap_sample_id_to_timestamp_old, tmap_timestamp_to_sample_id_old. rewrite E. split; reflexivity.
+  - rewrite !(s2t_single_old _ t q s0 u0 E), !(t2s_single_old _ t q s0 u0 E). split; reflexivity.
+  - rewrite !s2t_multi_old, !t2s_multi_old by assumption. unfold interp_old.
     rewrite (search_junk_independent_lemma j j' (phys t) (ids t) q) by (rewrite ids_length; assumption).
     rewrite (search_junk_independent_lemma j j' (phys t) (times t) q) by (rewrite times_length; assumption).
     split; reflexivity.
 Qed.
 
-Lemma interp_not_oob : forall j ph xs ys q, (length xs < ph)%nat -> interp j ph xs ys q <> Fault OOB_read.
+Lemma interp_not_oob : forall j ph xs ys q, (length xs < ph)%nat -> interp_old j ph xs ys q <> Fault OOB_read.
 Proof.
-  intros j ph xs ys q Hph. unfold interp.
+  intros j ph xs ys q Hph. unfold interp_old.
   destruct (search_no_oob_lemma j ph xs q Hph) as [c [-> _]].
-  unfold interp_at. destruct (negb _); [discriminate|]. destruct (_ =? 0); [discriminate|].
+  unfold interp_at_old. destruct (negb _); [discriminate|]. destruct (_ =? 0); [discriminate|].
   destruct (negb _); discriminate.
 Qed.
 
-Theorem tmap_no_oob : forall j t q, (length (entries t) < phys t)%nat ->
-  tmap_sample_id_to_timestamp j t q <> QFault OOB_read /\
-  tmap_timestamp_to_sample_id j t q <> QFault OOB_read.
+Theorem tmap_old_no_oob : forall j t q, (length (entries t) < phys t)%nat ->
+  tmap_sample_id_to_timestamp_old j t q <> QFault OOB_read /\
+  tmap_timestamp_to_sample_id_old j t q <> QFault OOB_read.
 Proof.
   intros j t q Hph.
   destruct (entries_cases t) as [E|[[s0 [u0 E]]|E]].
-  - unfold tmap_sample_id_to_timestamp, tmap_timestamp_to_sample_id. rewrite E. split; discriminate.
-  - rewrite (s2t_single _ t q s0 u0 E), (t2s_single _ t q s0 u0 E).
+  - unfold tmap_sample_id_to_timestamp_old, tmap_timestamp_to_sample_id_old. rewrite E. split; discriminate.
+  - rewrite (s2t_single_old _ t q s0 u0 E), (t2s_single_old _ t q s0 u0 E).
     unfold single_id_to_time, single_time_to_id.
     split; destruct (rate_positive _); try discriminate;
       destruct (negb _); try discriminate; destruct (negb _); discriminate.
-  - rewrite s2t_multi, t2s_multi by assumption. split.
+  - rewrite s2t_multi_old, t2s_multi_old by assumption. split.
     + pose proof (interp_not_oob j (phys t) (ids t) (times t) q ltac:(rewrite ids_length; assumption)) as H.
-      destruct (interp _ _ _ _ _) as [a|f]; cbn; [discriminate|]. intros Hc. inversion Hc. subst f. apply H. reflexivity.
+      destruct (interp_old _ _ _ _ _) as [a|f]; cbn; [discriminate|]. intros Hc. inversion Hc. subst f. apply H. reflexivity.
     + pose proof (interp_not_oob j (phys t) (times t) (ids t) q ltac:(rewrite times_length; assumption)) as H.
-      destruct (interp _ _ _ _ _) as [a|f]; cbn; [discriminate|]. intros Hc. inversion Hc. subst f. apply H. reflexivity.
+      destruct (interp_old _ _ _ _ _) as [a|f]; cbn; [discriminate|]. intros Hc. inversion Hc. subst f. apply H. reflexivity.
 Qed.
 
 (* ================= the repaired code returns what the present code returns ================= *)
 Lemma interp_at_fixed_eq : forall xs ys c q, nth (S c) xs 0 - nth c xs 0 <> 0 ->
-  interp_at_fixed xs ys c q = interp_at xs ys c q.
+  interp_at xs ys c q = interp_at_old xs ys c q.
 Proof.
-  intros xs ys c q H. unfold interp_at_fixed, interp_at.
+  intros xs ys c q H. unfold interp_at, interp_at_old.
   destruct (negb _); [reflexivity|].
   replace (nth (S c) xs 0 - nth c xs 0 =? 0) with false by lia. reflexivity.
 Qed.
 
 Lemma interp_fixed_eq : forall j ph xs ys q,
   sorted_lt xs -> (2 <= length xs)%nat -> (length xs < ph)%nat ->
-  interp_fixed xs ys q = interp j ph xs ys q.
+  interp xs ys q = interp_old j ph xs ys q.
 Proof.
-  intros j ph xs ys q Hs Hl Hph. unfold interp_fixed, interp.
+  intros j ph xs ys q Hs Hl Hph. unfold interp, interp_old.
   rewrite (search_fixed_eq j ph xs q Hs Hl Hph).
   destruct (search_seg_ok j ph xs q Hs Hl Hph) as [c [-> [Hc _]]].
   apply interp_at_fixed_eq. pose proof (Hs c (S c) ltac:(lia)). lia.
 Qed.
 
-Theorem tmap_fixed_eq : forall j t q,
+Theorem tmap_eq_old_s2t : forall j t q,
   sorted_lt (ids t) -> (length (entries t) < phys t)%nat ->
-  tmap_sample_id_to_timestamp_fixed t q = tmap_sample_id_to_timestamp j t q /\
-  (sorted_lt (times t) -> tmap_timestamp_to_sample_id_fixed t q = tmap_timestamp_to_sample_id j t q).
+  tmap_sample_id_to_timestamp t q = tmap_sample_id_to_timestamp_old j t q.
 Proof.
   intros j t q Hs Hph.
   assert (P1 : (length (ids t) < phys t)%nat) by (rewrite ids_length; assumption).
-  assert (P2 : (length (times t) < phys t)%nat) by (rewrite times_length; assumption).
-  pose proof (ids_length t) as L1. pose proof (times_length t) as L2.
-  unfold tmap_sample_id_to_timestamp_fixed, tmap_timestamp_to_sample_id_fixed,
-         tmap_sample_id_to_timestamp, tmap_timestamp_to_sample_id.
-  destruct (entries t) as [|[s0 u0] [|e2 l]] eqn:E; try (split; reflexivity).
-  cbn [length] in L1, L2.
-  split.
-  - rewrite (interp_fixed_eq j (phys t) (ids t) (times t) q Hs ltac:(lia) P1). reflexivity.
-  - intros Hst.
-    rewrite (interp_fixed_eq j (phys t) (times t) (ids t) q Hst ltac:(lia) P2). reflexivity.
+  pose proof (ids_length t) as L1.
+  unfold tmap_sample_id_to_timestamp, tmap_sample_id_to_timestamp_old.
+  destruct (entries t) as [|[s0 u0] [|e2 l]] eqn:E; try reflexivity.
+  cbn [length] in L1.
+  rewrite (interp_fixed_eq j (phys t) (ids t) (times t) q Hs ltac:(lia) P1). reflexivity.
 Qed.
 
-(* at capacity (length = physical cells) the present code faults for queries beyond the last
-   anchor; the repaired code returns what the unchecked build computes there *)
-Theorem tmap_fixed_eq_unchecked : forall j t q,
-  sorted_lt (ids t) ->
-  tmap_sample_id_to_timestamp_fixed t q = tmap_sample_id_to_timestamp j (tmap_unchecked t) q /\
-  tmap_sample_id_to_timestamp_fixed t q <> QFault OOB_read.
+Theorem tmap_eq_old_t2s : forall j t q,
+  sorted_lt (times t) -> (length (entries t) < phys t)%nat ->
+  tmap_timestamp_to_sample_id t q = tmap_timestamp_to_sample_id_old j t q.
+Proof.
+  intros j t q Hs Hph.
+  assert (P2 : (length (times t) < phys t)%nat) by (rewrite times_length; assumption).
+  pose proof (times_length t) as L2.
+  unfold tmap_timestamp_to_sample_id, tmap_timestamp_to_sample_id_old.
+  destruct (entries t) as [|[s0 u0] [|e2 l]] eqn:E; try reflexivity.
+  cbn [length] in L2.
+  rewrite (interp_fixed_eq j (phys t) (times t) (ids t) q Hs ltac:(lia) P2). reflexivity.
+Qed.
+
+(* the current code = the old code run on a heap object with spare cells (where the old code was
+   defined): the transfer principle for all theorems below *)
+Lemma unchecked_phys : forall t, (length (entries (tmap_unchecked t)) < phys (tmap_unchecked t))%nat.
+Proof. intros t. unfold tmap_unchecked. cbn [entries phys]. lia. Qed.
+
+Theorem tmap_cur_s2t : forall j t q, sorted_lt (ids t) ->
+  tmap_sample_id_to_timestamp t q = tmap_sample_id_to_timestamp_old j (tmap_unchecked t) q.
 Proof.
   intros j t q Hs.
-  assert (H : tmap_sample_id_to_timestamp_fixed t q = tmap_sample_id_to_timestamp j (tmap_unchecked t) q).
-  { change (tmap_sample_id_to_timestamp_fixed t q) with (tmap_sample_id_to_timestamp_fixed (tmap_unchecked t) q).
-    apply tmap_fixed_eq; [exact Hs|]. unfold tmap_unchecked. cbn [entries phys]. lia. }
-  split; [exact H|]. rewrite H.
-  apply tmap_no_oob. unfold tmap_unchecked. cbn [entries phys]. lia.
+  change (tmap_sample_id_to_timestamp t q) with (tmap_sample_id_to_timestamp (tmap_unchecked t) q).
+  apply tmap_eq_old_s2t; [exact Hs|apply unchecked_phys].
+Qed.
+
+Theorem tmap_cur_t2s : forall j t q, sorted_lt (times t) ->
+  tmap_timestamp_to_sample_id t q = tmap_timestamp_to_sample_id_old j (tmap_unchecked t) q.
+Proof.
+  intros j t q Hs.
+  change (tmap_timestamp_to_sample_id t q) with (tmap_timestamp_to_sample_id (tmap_unchecked t) q).
+  apply tmap_eq_old_t2s; [exact Hs|apply unchecked_phys].
 Qed.
 
 (* the over-read, exact condition *)
-Theorem tmap_oob_iff : forall j t q, sorted_lt (ids t) -> (2 <= length (entries t))%nat ->
+Theorem tmap_old_oob_iff : forall j t q, sorted_lt (ids t) -> (2 <= length (entries t))%nat ->
   (phys t <= length (entries t))%nat ->
-  (tmap_sample_id_to_timestamp j t q = QFault OOB_read <-> nth (length (entries t) - 1) (ids t) 0 < q).
+  (tmap_sample_id_to_timestamp_old j t q = QFault OOB_read <-> nth (length (entries t) - 1) (ids t) 0 < q).
 Proof.
-  intros j t q Hs Hl Hph. rewrite s2t_multi by assumption.
+  intros j t q Hs Hl Hph. rewrite s2t_multi_old by assumption.
   pose proof (search_oob_iff_lemma j (phys t) (ids t) q Hs ltac:(rewrite ids_length; assumption) ltac:(rewrite ids_length; assumption)) as H.
-  rewrite ids_length in H. rewrite <- H. unfold interp.
-  destruct (search j (phys t) (ids t) q) as [c|f] eqn:E.
-  - split; [|discriminate]. unfold interp_at.
+  rewrite ids_length in H. rewrite <- H. unfold interp_old.
+  destruct (search_old j (phys t) (ids t) q) as [c|f] eqn:E.
+  - split; [|discriminate]. unfold interp_at_old.
     destruct (negb _); [discriminate|]. destruct (_ =? 0); [discriminate|]. destruct (negb _); discriminate.
   - cbn. split; intros H'; inversion H'; reflexivity.
 Qed.
@@ -957,30 +977,30 @@ Proof.
   change 0 with (snd (0, 0)). rewrite map_nth, E. split; reflexivity.
 Qed.
 
-Lemma gen_ok_s2t : forall t, sorted_lt (ids t) -> sorted_le (times t) ->
+Lemma gen_ok_s2t_old : forall t, sorted_lt (ids t) -> sorted_le (times t) ->
   (2 <= length (entries t))%nat -> (length (entries t) < phys t)%nat ->
   gen_ok (phys t) (ids t) (times t).
 Proof. intros t H1 H2 H3 H4. unfold gen_ok. rewrite ids_length, times_length. auto. Qed.
 
-Lemma gen_ok_t2s : forall t, sorted_lt (times t) -> sorted_lt (ids t) ->
+Lemma gen_ok_t2s_old : forall t, sorted_lt (times t) -> sorted_lt (ids t) ->
   (2 <= length (entries t))%nat -> (length (entries t) < phys t)%nat ->
   gen_ok (phys t) (times t) (ids t).
 Proof. intros t H1 H2 H3 H4. unfold gen_ok. rewrite ids_length, times_length. auto using sorted_lt_le. Qed.
 
 (* ================= anchors ================= *)
-Theorem tmap_anchor_exact : forall j t s u,
+Theorem tmap_old_anchor_exact : forall j t s u,
   sorted_lt (ids t) -> sorted_le (times t) -> (length (entries t) < phys t)%nat ->
   all_in (2 ^ 62 - 1) (ids t) -> all_in (2 ^ 62 - 1) (times t) -> (0 < rate t)%Q ->
   In (s, u) (entries t) ->
-  tmap_sample_id_to_timestamp j t s = QVal u /\
-  (sorted_lt (times t) -> tmap_timestamp_to_sample_id j t u = QVal s).
+  tmap_sample_id_to_timestamp_old j t s = QVal u /\
+  (sorted_lt (times t) -> tmap_timestamp_to_sample_id_old j t u = QVal s).
 Proof.
   intros j t s u Hsx Hsy Hph Hbx Hby Hr Hin.
   destruct (In_entries_nth t s u Hin) as [i [Hi [Es Eu]]].
   apply rate_positive_iff in Hr.
   destruct (entries_cases t) as [E|[[s0 [u0 E]]|E]].
   - rewrite E in Hin. destruct Hin.
-  - rewrite (s2t_single _ t s s0 u0 E), (t2s_single _ t u s0 u0 E), Hr.
+  - rewrite (s2t_single_old _ t s s0 u0 E), (t2s_single_old _ t u s0 u0 E), Hr.
     rewrite E in Hin. destruct Hin as [Hin|[]]. inversion Hin. subst s0 u0.
     pose proof (all_in_nth _ _ 0%nat Hbx ltac:(rewrite ids_length, E; cbn; lia)) as B1.
     pose proof (all_in_nth _ _ 0%nat Hby ltac:(rewrite times_length, E; cbn; lia)) as B2.
@@ -995,25 +1015,25 @@ Proof.
     replace (in64 u) with true by (symmetry; apply in64_true; lia).
     replace (in64 s) with true by (symmetry; apply in64_true; lia).
     cbn. split; reflexivity.
-  - rewrite s2t_multi, t2s_multi by assumption. split.
+  - rewrite s2t_multi_old, t2s_multi_old by assumption. split.
     + rewrite <- Es, <- Eu.
-      rewrite (interp_anchor j (phys t) (ids t) (times t) i (gen_ok_s2t t Hsx Hsy E Hph) Hbx Hby) by (rewrite ids_length; assumption).
+      rewrite (interp_anchor j (phys t) (ids t) (times t) i (gen_ok_s2t_old t Hsx Hsy E Hph) Hbx Hby) by (rewrite ids_length; assumption).
       reflexivity.
     + intros Hst. rewrite <- Es, <- Eu.
-      rewrite (interp_anchor j (phys t) (times t) (ids t) i (gen_ok_t2s t Hst Hsx E Hph) Hby Hbx) by (rewrite times_length; assumption).
+      rewrite (interp_anchor j (phys t) (times t) (ids t) i (gen_ok_t2s_old t Hst Hsx E Hph) Hby Hbx) by (rewrite times_length; assumption).
       reflexivity.
 Qed.
 
 (* ================= monotone ================= *)
-Theorem tmap_monotone : forall j t q1 q2 v1 v2,
+Theorem tmap_old_monotone : forall j t q1 q2 v1 v2,
   sorted_lt (ids t) -> sorted_le (times t) -> (length (entries t) < phys t)%nat ->
-  tmap_sample_id_to_timestamp j t q1 = QVal v1 -> tmap_sample_id_to_timestamp j t q2 = QVal v2 ->
+  tmap_sample_id_to_timestamp_old j t q1 = QVal v1 -> tmap_sample_id_to_timestamp_old j t q2 = QVal v2 ->
   q1 <= q2 -> v1 <= v2.
 Proof.
   intros j t q1 q2 v1 v2 Hsx Hsy Hph H1 H2 Hq.
   destruct (entries_cases t) as [E|[[s0 [u0 E]]|E]].
-  - unfold tmap_sample_id_to_timestamp in H1. rewrite E in H1. discriminate.
-  - rewrite (s2t_single _ t q1 s0 u0 E) in H1. rewrite (s2t_single _ t q2 s0 u0 E) in H2.
+  - unfold tmap_sample_id_to_timestamp_old in H1. rewrite E in H1. discriminate.
+  - rewrite (s2t_single_old _ t q1 s0 u0 E) in H1. rewrite (s2t_single_old _ t q2 s0 u0 E) in H2.
     destruct (rate_positive (rate t)) eqn:Hr; [|discriminate].
     apply qres_of_val in H1. apply qres_of_val in H2.
     apply single_id_to_time_inv in H1; [|assumption]. apply single_id_to_time_inv in H2; [|assumption].
@@ -1023,20 +1043,20 @@ Proof.
     { apply Z.quot_le_mono; [lia|]. apply Z.mul_le_mono_nonneg_r; [lia|].
       apply Z.mul_le_mono_nonneg_r; lia. }
     lia.
-  - rewrite s2t_multi in H1 by assumption. rewrite s2t_multi in H2 by assumption.
+  - rewrite s2t_multi_old in H1 by assumption. rewrite s2t_multi_old in H2 by assumption.
     apply qres_of_val in H1. apply qres_of_val in H2.
-    exact (interp_monotone j (phys t) (ids t) (times t) q1 q2 v1 v2 (gen_ok_s2t t Hsx Hsy E Hph) H1 H2 Hq).
+    exact (interp_monotone j (phys t) (ids t) (times t) q1 q2 v1 v2 (gen_ok_s2t_old t Hsx Hsy E Hph) H1 H2 Hq).
 Qed.
 
-Theorem tmap_monotone_rev : forall j t q1 q2 v1 v2,
+Theorem tmap_old_monotone_rev : forall j t q1 q2 v1 v2,
   sorted_lt (ids t) -> sorted_lt (times t) -> (length (entries t) < phys t)%nat ->
-  tmap_timestamp_to_sample_id j t q1 = QVal v1 -> tmap_timestamp_to_sample_id j t q2 = QVal v2 ->
+  tmap_timestamp_to_sample_id_old j t q1 = QVal v1 -> tmap_timestamp_to_sample_id_old j t q2 = QVal v2 ->
   q1 <= q2 -> v1 <= v2.
 Proof.
   intros j t q1 q2 v1 v2 Hsx Hsy Hph H1 H2 Hq.
   destruct (entries_cases t) as [E|[[s0 [u0 E]]|E]].
-  - unfold tmap_timestamp_to_sample_id in H1. rewrite E in H1. discriminate.
-  - rewrite (t2s_single _ t q1 s0 u0 E) in H1. rewrite (t2s_single _ t q2 s0 u0 E) in H2.
+  - unfold tmap_timestamp_to_sample_id_old in H1. rewrite E in H1. discriminate.
+  - rewrite (t2s_single_old _ t q1 s0 u0 E) in H1. rewrite (t2s_single_old _ t q2 s0 u0 E) in H2.
     destruct (rate_positive (rate t)) eqn:Hr; [|discriminate].
     apply qres_of_val in H1. apply qres_of_val in H2.
     apply single_time_to_id_inv in H1. apply single_time_to_id_inv in H2.
@@ -1045,9 +1065,9 @@ Proof.
             Z.quot ((q2 - u0) * Qnum (rate t)) (2 ^ 30 * Zpos (Qden (rate t)))).
     { apply Z.quot_le_mono; [lia|]. apply Z.mul_le_mono_nonneg_r; lia. }
     lia.
-  - rewrite t2s_multi in H1 by assumption. rewrite t2s_multi in H2 by assumption.
+  - rewrite t2s_multi_old in H1 by assumption. rewrite t2s_multi_old in H2 by assumption.
     apply qres_of_val in H1. apply qres_of_val in H2.
-    exact (interp_monotone j (phys t) (times t) (ids t) q1 q2 v1 v2 (gen_ok_t2s t Hsy Hsx E Hph) H1 H2 Hq).
+    exact (interp_monotone j (phys t) (times t) (ids t) q1 q2 v1 v2 (gen_ok_t2s_old t Hsy Hsx E Hph) H1 H2 Hq).
 Qed.
 
 (* ------------------------------------------------------------------ *)
@@ -1074,11 +1094,11 @@ Proof.
 Qed.
 
 (* ================= linear interpolation between neighbours ================= *)
-Theorem tmap_interp_linear : forall j t i q,
+Theorem tmap_old_interp_linear : forall j t i q,
   sorted_lt (ids t) -> sorted_le (times t) -> (length (entries t) < phys t)%nat ->
   all_in (2 ^ 62 - 1) (ids t) -> all_in (2 ^ 62 - 1) (times t) ->
   (i + 1 < length (entries t))%nat -> nth i (ids t) 0%Z <= q <= nth (S i) (ids t) 0%Z ->
-  exists v, tmap_sample_id_to_timestamp j t q = QVal v /\
+  exists v, tmap_sample_id_to_timestamp_old j t q = QVal v /\
     v = nth i (times t) 0%Z + Qround_haz (inject_Z (q - nth i (ids t) 0%Z) * (inject_Z (nth (S i) (times t) 0%Z - nth i (times t) 0%Z) / inject_Z (nth (S i) (ids t) 0%Z - nth i (ids t) 0%Z)))%Q /\
     (Qabs (inject_Z v - (inject_Z (nth i (times t) 0%Z) + inject_Z (q - nth i (ids t) 0%Z) * (inject_Z (nth (S i) (times t) 0%Z - nth i (times t) 0%Z) / inject_Z (nth (S i) (ids t) 0%Z - nth i (ids t) 0%Z)))) <= 1 # 2)%Q /\
     nth i (times t) 0%Z <= v <= nth (S i) (times t) 0%Z.
@@ -1087,8 +1107,8 @@ Proof.
   assert (E : (2 <= length (entries t))%nat) by lia.
   pose proof (Hsx i (S i) ltac:(rewrite ids_length; lia)) as Hds.
   pose proof (Hsy i (S i) ltac:(rewrite times_length; lia)) as Hdt.
-  exists (ival (ids t) (times t) i q). rewrite s2t_multi by assumption.
-  rewrite (interp_linear_lemma j (phys t) (ids t) (times t) i q (gen_ok_s2t t Hsx Hsy E Hph) Hbx Hby) by (rewrite ?ids_length; assumption).
+  exists (ival (ids t) (times t) i q). rewrite s2t_multi_old by assumption.
+  rewrite (interp_linear_lemma j (phys t) (ids t) (times t) i q (gen_ok_s2t_old t Hsx Hsy E Hph) Hbx Hby) by (rewrite ?ids_length; assumption).
   split; [reflexivity|]. rewrite ival_as_Q by lia. split; [reflexivity|]. split; [apply half_Q|].
   rewrite <- ival_as_Q by lia. split.
   - apply ival_ge_left; lia.
@@ -1096,9 +1116,9 @@ Proof.
 Qed.
 
 (* ================= every query: the segment and the distance to the exact value ================= *)
-Theorem tmap_within_one_tick : forall j t q v,
+Theorem tmap_old_within_one_tick : forall j t q v,
   sorted_lt (ids t) -> (length (entries t) < phys t)%nat ->
-  tmap_sample_id_to_timestamp j t q = QVal v ->
+  tmap_sample_id_to_timestamp_old j t q = QVal v ->
   (exists s0 u0, entries t = [(s0, u0)] /\ (0 < rate t)%Q /\
      v = u0 + Qtrunc ((inject_Z (q - s0) / rate t) * inject_Z (2 ^ 30))%Q /\
      (Qabs (inject_Z v - (inject_Z u0 + (inject_Z (q - s0) / rate t) * inject_Z (2 ^ 30))) < 1)%Q) \/
@@ -1108,15 +1128,15 @@ Theorem tmap_within_one_tick : forall j t q v,
 Proof.
   intros j t q v Hsx Hph H.
   destruct (entries_cases t) as [E|[[s0 [u0 E]]|E]].
-  - unfold tmap_sample_id_to_timestamp in H. rewrite E in H. discriminate.
+  - unfold tmap_sample_id_to_timestamp_old in H. rewrite E in H. discriminate.
   - left. exists s0, u0. split; [assumption|].
-    rewrite (s2t_single _ t q s0 u0 E) in H.
+    rewrite (s2t_single_old _ t q s0 u0 E) in H.
     destruct (rate_positive (rate t)) eqn:Hr; [|discriminate].
     split; [apply rate_positive_iff; assumption|].
     apply qres_of_val in H. unfold single_id_to_time in H.
     destruct (negb _); [discriminate|]. destruct (negb _); [discriminate|]. inversion H.
     change TMAP_TIME_SECOND with (2 ^ 30). split; [reflexivity|apply lt1_Q].
-  - right. rewrite s2t_multi in H by assumption. apply qres_of_val in H.
+  - right. rewrite s2t_multi_old in H by assumption. apply qres_of_val in H.
     destruct (interp_has_seg j (phys t) (ids t) (times t) q Hsx ltac:(rewrite ids_length; assumption) ltac:(rewrite ids_length; assumption)) as [c [Hc Ec]].
     exists c. split; [assumption|]. rewrite Ec in H.
     apply interp_at_inv in H. destruct H as [_ ->]. unfold interp_k.
@@ -1124,9 +1144,9 @@ Proof.
 Qed.
 
 (* ================= extrapolation uses the nearest (first / last) segment ================= *)
-Theorem tmap_extrap_nearest_segment : forall j t q v,
+Theorem tmap_old_extrap_nearest_segment : forall j t q v,
   sorted_lt (ids t) -> (length (entries t) < phys t)%nat -> (2 <= length (entries t))%nat ->
-  tmap_sample_id_to_timestamp j t q = QVal v ->
+  tmap_sample_id_to_timestamp_old j t q = QVal v ->
   (q < nth 0 (ids t) 0%Z ->
      v = nth 0 (times t) 0%Z + Qround_haz (inject_Z (q - nth 0 (ids t) 0%Z) * (inject_Z (nth 1 (times t) 0%Z - nth 0 (times t) 0%Z) / inject_Z (nth 1 (ids t) 0%Z - nth 0 (ids t) 0%Z)))%Q) /\
   (nth (length (entries t) - 1) (ids t) 0 <= q ->
@@ -1134,7 +1154,7 @@ Theorem tmap_extrap_nearest_segment : forall j t q v,
      v = nth c (times t) 0%Z + Qround_haz (inject_Z (q - nth c (ids t) 0%Z) * (inject_Z (nth (S c) (times t) 0%Z - nth c (times t) 0%Z) / inject_Z (nth (S c) (ids t) 0%Z - nth c (ids t) 0%Z)))%Q).
 Proof.
   intros j t q v Hsx Hph E H.
-  rewrite s2t_multi in H by assumption. apply qres_of_val in H.
+  rewrite s2t_multi_old in H by assumption. apply qres_of_val in H.
   assert (L : (2 <= length (ids t))%nat) by (rewrite ids_length; assumption).
   assert (P : (length (ids t) < phys t)%nat) by (rewrite ids_length; assumption).
   split.
@@ -1146,19 +1166,19 @@ Proof.
 Qed.
 
 (* ================= inverse ================= *)
-Theorem tmap_inverse_within_one_sample : forall j j' t q tm q',
+Theorem tmap_old_inverse_within_one_sample : forall j j' t q tm q',
   sorted_lt (ids t) -> (length (entries t) < phys t)%nat ->
   (forall i, (i + 1 < length (entries t))%nat ->
      nth (S i) (ids t) 0%Z - nth i (ids t) 0%Z <= nth (S i) (times t) 0%Z - nth i (times t) 0%Z) ->
   (rate t <= inject_Z (2 ^ 30))%Q ->
-  tmap_sample_id_to_timestamp j t q = QVal tm ->
-  tmap_timestamp_to_sample_id j' t tm = QVal q' ->
+  tmap_sample_id_to_timestamp_old j t q = QVal tm ->
+  tmap_timestamp_to_sample_id_old j' t tm = QVal q' ->
   -1 <= q' - q <= 1.
 Proof.
   intros j j' t q tm q' Hsx Hph Hslope Hrate H1 H2.
   destruct (entries_cases t) as [E|[[s0 [u0 E]]|E]].
-  - unfold tmap_sample_id_to_timestamp in H1. rewrite E in H1. discriminate.
-  - rewrite (s2t_single _ t q s0 u0 E) in H1. rewrite (t2s_single _ t tm s0 u0 E) in H2.
+  - unfold tmap_sample_id_to_timestamp_old in H1. rewrite E in H1. discriminate.
+  - rewrite (s2t_single_old _ t q s0 u0 E) in H1. rewrite (t2s_single_old _ t tm s0 u0 E) in H2.
     destruct (rate_positive (rate t)) eqn:Hr; [|discriminate].
     apply qres_of_val in H1. apply qres_of_val in H2.
     apply single_id_to_time_inv in H1; [|assumption]. apply single_time_to_id_inv in H2.
@@ -1169,7 +1189,7 @@ Proof.
     pose proof (quot_round_trip (q - s0) (Qnum (rate t)) (2 ^ 30 * Z.pos (Qden (rate t))) ltac:(lia) ltac:(lia)) as R.
     replace ((q - s0) * (2 ^ 30 * Z.pos (Qden (rate t)))) with ((q - s0) * Z.pos (Qden (rate t)) * 2 ^ 30) in R by ring.
     lia.
-  - rewrite s2t_multi in H1 by assumption. rewrite t2s_multi in H2 by assumption.
+  - rewrite s2t_multi_old in H1 by assumption. rewrite t2s_multi_old in H2 by assumption.
     apply qres_of_val in H1. apply qres_of_val in H2.
     apply (interp_inverse j j' (phys t) (ids t) (times t) q tm q' Hsx); try assumption;
       rewrite ?ids_length, ?times_length; try assumption; try reflexivity.
@@ -1386,12 +1406,12 @@ Proof.
   destruct i as [|[|i]]; [apply Z.leb_le; vm_compute; reflexivity|apply Z.leb_le; vm_compute; reflexivity|lia].
 Qed.
 
-Lemma ex_map_values :
-  tmap_sample_id_to_timestamp 0 ex_map 500 = QVal (2 ^ 58 + 2 ^ 29) /\
-  tmap_sample_id_to_timestamp 12345 ex_map 1000 = QVal (2 ^ 58 + 2 ^ 30) /\
-  tmap_sample_id_to_timestamp 0 ex_map 3000 = QVal (2 ^ 58 + 5 * 2 ^ 29 + 7 + 536870914) /\
-  tmap_timestamp_to_sample_id 0 ex_map (2 ^ 58 + 2 ^ 29) = QVal 500 /\
-  tmap_sample_id_to_timestamp 0 ex_single 6000 = QVal (2 ^ 58 + 2 ^ 30).
+Lemma ex_map_values_old :
+  tmap_sample_id_to_timestamp_old 0 ex_map 500 = QVal (2 ^ 58 + 2 ^ 29) /\
+  tmap_sample_id_to_timestamp_old 12345 ex_map 1000 = QVal (2 ^ 58 + 2 ^ 30) /\
+  tmap_sample_id_to_timestamp_old 0 ex_map 3000 = QVal (2 ^ 58 + 5 * 2 ^ 29 + 7 + 536870914) /\
+  tmap_timestamp_to_sample_id_old 0 ex_map (2 ^ 58 + 2 ^ 29) = QVal 500 /\
+  tmap_sample_id_to_timestamp_old 0 ex_single 6000 = QVal (2 ^ 58 + 2 ^ 30).
 Proof. vm_compute. repeat split; reflexivity. Qed.
 
 (* ------------------------------------------------------------------ *)
@@ -1406,13 +1426,13 @@ Lemma full_map_facts :
   incrb (ids full_map) = true /\ incrb (times full_map) = true.
 Proof. vm_compute. repeat split; reflexivity. Qed.
 
-Theorem tmap_oob_refuted :
+Theorem tmap_old_oob_refuted :
   exists (t : tmap) (q : Z),
     t = tmap_add_all (tmap_alloc (1000 # 1)) full_adds /\
     sorted_lt (ids t) /\ sorted_lt (times t) /\
     length (entries t) = N.to_nat TMAP_ENTRIES_ALLOC_INIT /\
-    forall junk, tmap_sample_id_to_timestamp junk t q = QFault OOB_read /\
-                 tmap_timestamp_to_sample_id junk t (2 ^ 58 + 1000 * 2 ^ 30) = QFault OOB_read.
+    forall junk, tmap_sample_id_to_timestamp_old junk t q = QFault OOB_read /\
+                 tmap_timestamp_to_sample_id_old junk t (2 ^ 58 + 1000 * 2 ^ 30) = QFault OOB_read.
 Proof.
   exists full_map, 999001. split; [reflexivity|].
   destruct full_map_facts as [F1 [F2 [F3 F4]]].
@@ -1420,25 +1440,25 @@ Proof.
   assert (S2 : sorted_lt (times full_map)) by (apply incr_sorted_lt, incrb_incr; exact F4).
   split; [exact S1|]. split; [exact S2|]. split; [exact F1|].
   intros junk. split.
-  - apply tmap_oob_iff; [exact S1|rewrite F1; vm_compute; lia|rewrite F1, F2; lia|].
+  - apply tmap_old_oob_iff; [exact S1|rewrite F1; vm_compute; lia|rewrite F1, F2; lia|].
     apply Z.ltb_lt. vm_compute. reflexivity.
-  - rewrite t2s_multi by (rewrite F1; vm_compute; lia).
-    assert (H : search junk (phys full_map) (times full_map) (2 ^ 58 + 1000 * 2 ^ 30) = Fault OOB_read).
+  - rewrite t2s_multi_old by (rewrite F1; vm_compute; lia).
+    assert (H : search_old junk (phys full_map) (times full_map) (2 ^ 58 + 1000 * 2 ^ 30) = Fault OOB_read).
     { apply search_oob_iff_lemma; [exact S2|rewrite times_length, F1; vm_compute; lia|rewrite times_length, F1, F2; lia|].
       apply Z.ltb_lt. vm_compute. reflexivity. }
-    unfold interp. rewrite H. reflexivity.
+    unfold interp_old. rewrite H. reflexivity.
 Qed.
 
 (* two anchors with the same time (allowed: times non-decreasing): time -> id divides by zero *)
 Definition eqt_map : tmap :=
   tmap_add_all (tmap_alloc (1000 # 1)) [(0, 2 ^ 40); (1000, 2 ^ 40)].
 
-Theorem tmap_equal_times_refuted :
+Theorem tmap_old_equal_times_refuted :
   exists (t : tmap) (s u : Z),
     sorted_lt (ids t) /\ sorted_le (times t) /\ (length (entries t) < phys t)%nat /\
     In (s, u) (entries t) /\
-    tmap_sample_id_to_timestamp 0 t s = QVal u /\
-    tmap_timestamp_to_sample_id 0 t u = QFault FP_invalid.
+    tmap_sample_id_to_timestamp_old 0 t s = QVal u /\
+    tmap_timestamp_to_sample_id_old 0 t u = QFault FP_invalid.
 Proof.
   exists eqt_map, 0, (2 ^ 40).
   split; [apply incr_sorted_lt, incrb_incr; vm_compute; reflexivity|].
@@ -1448,4 +1468,194 @@ Proof.
   split; [apply Nat.ltb_lt; vm_compute; reflexivity|].
   split; [left; reflexivity|].
   vm_compute. split; reflexivity.
+Qed.
+
+(* ====================================================================================== *)
+(* ================= CURRENT CODE (high = length - 1; ds = 0 returns y[low]) ============= *)
+(* ====================================================================================== *)
+Lemma search_loop_total : forall fuel j ph xs x0 low high,
+  (low <= high < length xs)%nat -> (high - low < fuel)%nat ->
+  exists r, search_loop fuel j ph xs x0 low high = Ok r /\ (low <= r <= high)%nat.
+Proof.
+  induction fuel as [|f IH]; intros j ph xs x0 low high Hlh Hf; [lia|].
+  cbn [search_loop].
+  destruct (low <? high)%nat eqn:Elt; [|exists low; split; [reflexivity|lia]].
+  pose proof (mid_bounds low high ltac:(lia)) as Hm.
+  set (mid := ((low + high + 1) / 2)%nat) in *.
+  rewrite (rd_in j ph xs mid ltac:(lia)).
+  destruct (x0 =? nth mid xs 0) eqn:Eeq; [exists mid; split; [reflexivity|lia]|].
+  destruct (x0 <? nth mid xs 0) eqn:Elt2.
+  - destruct (IH j ph xs x0 low (mid - 1)%nat ltac:(lia) ltac:(lia)) as [r [Hr Hb]].
+    exists r; split; [exact Hr|lia].
+  - destruct (IH j ph xs x0 mid high ltac:(lia) ltac:(lia)) as [r [Hr Hb]].
+    exists r; split; [exact Hr|lia].
+Qed.
+
+(* the bisection of the current code never reads at or beyond length and always terminates:
+   no sortedness, no capacity hypothesis *)
+Theorem search_total : forall xs x0, (1 <= length xs)%nat ->
+  exists c, search xs x0 = Ok c /\ (c < length xs)%nat /\ (2 <= length xs -> c + 2 <= length xs)%nat.
+Proof.
+  intros xs x0 Hl. unfold search.
+  destruct (search_loop_total (length xs) 0 0%nat xs x0 0%nat (length xs - 1)%nat ltac:(lia) ltac:(lia)) as [r [-> Hb]].
+  eexists; split; [reflexivity|]. unfold clamp.
+  destruct (length xs - 1 <=? r)%nat eqn:E; lia.
+Qed.
+
+Lemma interp_fault : forall xs ys q f, (1 <= length xs)%nat -> interp xs ys q = Fault f -> f = Int_overflow.
+Proof.
+  intros xs ys q f Hl. unfold interp.
+  destruct (search_total xs q Hl) as [c [-> _]]. unfold interp_at.
+  destruct (negb _); [intros H; inversion H; reflexivity|].
+  destruct (_ =? 0); [discriminate|].
+  destruct (negb _); [intros H; inversion H; reflexivity|discriminate].
+Qed.
+
+Lemma single_fault : forall r s0 u0 q f,
+  (single_id_to_time r s0 u0 q = Fault f -> f = Int_overflow) /\
+  (single_time_to_id r s0 u0 q = Fault f -> f = Int_overflow).
+Proof.
+  intros r s0 u0 q f. unfold single_id_to_time, single_time_to_id. split.
+  - destruct (negb _); [intros H; inversion H; reflexivity|].
+    destruct (negb _); [intros H; inversion H; reflexivity|discriminate].
+  - destruct (negb _); [intros H; inversion H; reflexivity|].
+    destruct (negb _); [intros H; inversion H; reflexivity|discriminate].
+Qed.
+
+(* every map, every query, sorted or not, equal times or not: the only fault left is int64
+   overflow (undefined behaviour of the C for astronomically distant queries) *)
+Theorem tmap_total : forall t q f,
+  tmap_sample_id_to_timestamp t q = QFault f \/ tmap_timestamp_to_sample_id t q = QFault f -> f = Int_overflow.
+Proof.
+  intros t q f H.
+  pose proof (ids_length t) as L1. pose proof (times_length t) as L2.
+  unfold tmap_sample_id_to_timestamp, tmap_timestamp_to_sample_id in H.
+  destruct (entries t) as [|[s0 u0] [|e2 l]] eqn:E.
+  - destruct H; discriminate.
+  - destruct (rate_positive (rate t)); [|destruct H; discriminate].
+    destruct (single_fault (rate t) s0 u0 q f) as [A B].
+    destruct H as [H|H].
+    + destruct (single_id_to_time _ _ _ _) as [v|f'] eqn:E1; cbn in H; [discriminate|]. inversion H. subst f'. apply A. reflexivity.
+    + destruct (single_time_to_id _ _ _ _) as [v|f'] eqn:E1; cbn in H; [discriminate|]. inversion H. subst f'. apply B. reflexivity.
+  - cbn [length] in L1, L2. destruct H as [H|H].
+    + destruct (interp (ids t) (times t) q) as [v|f'] eqn:E1; cbn in H; [discriminate|]. inversion H. subst f'.
+      apply (interp_fault (ids t) (times t) q f ltac:(lia) E1).
+    + destruct (interp (times t) (ids t) q) as [v|f'] eqn:E1; cbn in H; [discriminate|]. inversion H. subst f'.
+      apply (interp_fault (times t) (ids t) q f ltac:(lia) E1).
+Qed.
+
+(* ---- the property theorems, transferred from the old-code proofs by tmap_cur_s2t / tmap_cur_t2s ---- *)
+Theorem tmap_anchor_exact : forall t s u,
+  sorted_lt (ids t) -> sorted_le (times t) ->
+  all_in (2 ^ 62 - 1) (ids t) -> all_in (2 ^ 62 - 1) (times t) -> (0 < rate t)%Q ->
+  In (s, u) (entries t) ->
+  tmap_sample_id_to_timestamp t s = QVal u /\
+  (sorted_lt (times t) -> tmap_timestamp_to_sample_id t u = QVal s).
+Proof.
+  intros t s u Hsx Hsy Hbx Hby Hr Hin.
+  destruct (tmap_old_anchor_exact 0 (tmap_unchecked t) s u Hsx Hsy (unchecked_phys t) Hbx Hby Hr Hin) as [A B].
+  split.
+  - rewrite (tmap_cur_s2t 0 t s Hsx). exact A.
+  - intros Hst. rewrite (tmap_cur_t2s 0 t u Hst). exact (B Hst).
+Qed.
+
+Theorem tmap_monotone : forall t q1 q2 v1 v2,
+  sorted_lt (ids t) -> sorted_le (times t) ->
+  tmap_sample_id_to_timestamp t q1 = QVal v1 -> tmap_sample_id_to_timestamp t q2 = QVal v2 ->
+  q1 <= q2 -> v1 <= v2.
+Proof.
+  intros t q1 q2 v1 v2 Hsx Hsy H1 H2 Hq.
+  rewrite (tmap_cur_s2t 0 t q1 Hsx) in H1. rewrite (tmap_cur_s2t 0 t q2 Hsx) in H2.
+  exact (tmap_old_monotone 0 (tmap_unchecked t) q1 q2 v1 v2 Hsx Hsy (unchecked_phys t) H1 H2 Hq).
+Qed.
+
+Theorem tmap_monotone_rev : forall t q1 q2 v1 v2,
+  sorted_lt (ids t) -> sorted_lt (times t) ->
+  tmap_timestamp_to_sample_id t q1 = QVal v1 -> tmap_timestamp_to_sample_id t q2 = QVal v2 ->
+  q1 <= q2 -> v1 <= v2.
+Proof.
+  intros t q1 q2 v1 v2 Hsx Hsy H1 H2 Hq.
+  rewrite (tmap_cur_t2s 0 t q1 Hsy) in H1. rewrite (tmap_cur_t2s 0 t q2 Hsy) in H2.
+  exact (tmap_old_monotone_rev 0 (tmap_unchecked t) q1 q2 v1 v2 Hsx Hsy (unchecked_phys t) H1 H2 Hq).
+Qed.
+
+Theorem tmap_interp_linear : forall t i q,
+  sorted_lt (ids t) -> sorted_le (times t) ->
+  all_in (2 ^ 62 - 1) (ids t) -> all_in (2 ^ 62 - 1) (times t) ->
+  (i + 1 < length (entries t))%nat -> nth i (ids t) 0 <= q <= nth (S i) (ids t) 0 ->
+  exists v, tmap_sample_id_to_timestamp t q = QVal v /\
+    v = nth i (times t) 0 + Qround_haz (inject_Z (q - nth i (ids t) 0%Z) * (inject_Z (nth (S i) (times t) 0%Z - nth i (times t) 0%Z) / inject_Z (nth (S i) (ids t) 0%Z - nth i (ids t) 0%Z)))%Q /\
+    (Qabs (inject_Z v - (inject_Z (nth i (times t) 0%Z) + inject_Z (q - nth i (ids t) 0%Z) * (inject_Z (nth (S i) (times t) 0%Z - nth i (times t) 0%Z) / inject_Z (nth (S i) (ids t) 0%Z - nth i (ids t) 0%Z)))) <= 1 # 2)%Q /\
+    nth i (times t) 0 <= v <= nth (S i) (times t) 0.
+Proof.
+  intros t i q Hsx Hsy Hbx Hby Hi Hq.
+  rewrite (tmap_cur_s2t 0 t q Hsx).
+  exact (tmap_old_interp_linear 0 (tmap_unchecked t) i q Hsx Hsy (unchecked_phys t) Hbx Hby Hi Hq).
+Qed.
+
+Theorem tmap_within_one_tick : forall t q v,
+  sorted_lt (ids t) ->
+  tmap_sample_id_to_timestamp t q = QVal v ->
+  (exists s0 u0, entries t = [(s0, u0)] /\ (0 < rate t)%Q /\
+     v = u0 + Qtrunc ((inject_Z (q - s0) / rate t) * inject_Z (2 ^ 30))%Q /\
+     (Qabs (inject_Z v - (inject_Z u0 + (inject_Z (q - s0) / rate t) * inject_Z (2 ^ 30))) < 1)%Q) \/
+  (exists c, seg_ok (ids t) q c /\
+     v = nth c (times t) 0 + Qround_haz (inject_Z (q - nth c (ids t) 0%Z) * (inject_Z (nth (S c) (times t) 0%Z - nth c (times t) 0%Z) / inject_Z (nth (S c) (ids t) 0%Z - nth c (ids t) 0%Z)))%Q /\
+     (Qabs (inject_Z v - (inject_Z (nth c (times t) 0%Z) + inject_Z (q - nth c (ids t) 0%Z) * (inject_Z (nth (S c) (times t) 0%Z - nth c (times t) 0%Z) / inject_Z (nth (S c) (ids t) 0%Z - nth c (ids t) 0%Z)))) <= 1 # 2)%Q).
+Proof.
+  intros t q v Hsx H. rewrite (tmap_cur_s2t 0 t q Hsx) in H.
+  exact (tmap_old_within_one_tick 0 (tmap_unchecked t) q v Hsx (unchecked_phys t) H).
+Qed.
+
+Theorem tmap_extrap_nearest_segment : forall t q v,
+  sorted_lt (ids t) -> (2 <= length (entries t))%nat ->
+  tmap_sample_id_to_timestamp t q = QVal v ->
+  (q < nth 0 (ids t) 0 ->
+     v = nth 0 (times t) 0 + Qround_haz (inject_Z (q - nth 0 (ids t) 0%Z) * (inject_Z (nth 1 (times t) 0%Z - nth 0 (times t) 0%Z) / inject_Z (nth 1 (ids t) 0%Z - nth 0 (ids t) 0%Z)))%Q) /\
+  (nth (length (entries t) - 1) (ids t) 0 <= q ->
+     let c := (length (entries t) - 2)%nat in
+     v = nth c (times t) 0 + Qround_haz (inject_Z (q - nth c (ids t) 0%Z) * (inject_Z (nth (S c) (times t) 0%Z - nth c (times t) 0%Z) / inject_Z (nth (S c) (ids t) 0%Z - nth c (ids t) 0%Z)))%Q).
+Proof.
+  intros t q v Hsx E H. rewrite (tmap_cur_s2t 0 t q Hsx) in H.
+  exact (tmap_old_extrap_nearest_segment 0 (tmap_unchecked t) q v Hsx (unchecked_phys t) E H).
+Qed.
+
+Theorem tmap_inverse_within_one_sample : forall t q tm q',
+  sorted_lt (ids t) ->
+  (forall i, (i + 1 < length (entries t))%nat ->
+     nth (S i) (ids t) 0 - nth i (ids t) 0 <= nth (S i) (times t) 0 - nth i (times t) 0) ->
+  (rate t <= inject_Z (2 ^ 30))%Q ->
+  tmap_sample_id_to_timestamp t q = QVal tm ->
+  tmap_timestamp_to_sample_id t tm = QVal q' ->
+  -1 <= q' - q <= 1.
+Proof.
+  intros t q tm q' Hsx Hslope Hrate H1 H2.
+  assert (Hst : sorted_lt (times t)).
+  { apply (slope_sorted (ids t) (times t) Hsx); [rewrite ids_length, times_length; reflexivity|].
+    intros i Hi. rewrite ids_length in Hi. apply Hslope. assumption. }
+  rewrite (tmap_cur_s2t 0 t q Hsx) in H1. rewrite (tmap_cur_t2s 0 t tm Hst) in H2.
+  exact (tmap_old_inverse_within_one_sample 0 0 (tmap_unchecked t) q tm q' Hsx (unchecked_phys t) Hslope Hrate H1 H2).
+Qed.
+
+(* concrete values of the current code: the example map, the map at capacity (beyond the last
+   anchor: no fault any more), the map with two equal UTC times (the anchor id, no fault) *)
+Lemma ex_map_values :
+  tmap_sample_id_to_timestamp ex_map 500 = QVal (2 ^ 58 + 2 ^ 29) /\
+  tmap_sample_id_to_timestamp ex_map 1000 = QVal (2 ^ 58 + 2 ^ 30) /\
+  tmap_sample_id_to_timestamp ex_map 3000 = QVal (2 ^ 58 + 5 * 2 ^ 29 + 7 + 536870914) /\
+  tmap_timestamp_to_sample_id ex_map (2 ^ 58 + 2 ^ 29) = QVal 500 /\
+  tmap_sample_id_to_timestamp ex_single 6000 = QVal (2 ^ 58 + 2 ^ 30) /\
+  tmap_sample_id_to_timestamp full_map 999001 = QVal (2 ^ 58 + 999 * 2 ^ 30 + 1073742) /\
+  tmap_timestamp_to_sample_id full_map (2 ^ 58 + 1000 * 2 ^ 30) = QVal 1000000 /\
+  tmap_timestamp_to_sample_id eqt_map (2 ^ 40) = QVal 0 /\
+  tmap_timestamp_to_sample_id eqt_map (2 ^ 40 + 5) = QVal 0.
+Proof. vm_compute. repeat split; reflexivity. Qed.
+
+Theorem tmap_eq_old : forall j t q, (length (entries t) < phys t)%nat ->
+  (sorted_lt (ids t) -> tmap_sample_id_to_timestamp t q = tmap_sample_id_to_timestamp_old j t q) /\
+  (sorted_lt (times t) -> tmap_timestamp_to_sample_id t q = tmap_timestamp_to_sample_id_old j t q).
+Proof.
+  intros j t q Hph. split; intros Hs.
+  - exact (tmap_eq_old_s2t j t q Hs Hph).
+  - exact (tmap_eq_old_t2s j t q Hs Hph).
 Qed.
